@@ -1,6 +1,7 @@
 package zzverif
 
 import (
+	"github.com/grafana/cog/internal/ast/compiler"
 	"encoding/json"
 	"fmt"
 	"os"
@@ -216,6 +217,19 @@ func c18Pipeline(ctx *Ctx, dir string, w *Workload, sched simrt.Schedule) (map[s
 	ex2 := Simulate(simrt.Schedule{Default: simrt.Canonical}, nil, pipelineMaxTicks, func() error {
 		for i := range contexts {
 			walkAndCopy(ctx, reflect.ValueOf(&contexts[i]), map[uintptr]bool{}, &events, findings, 0)
+			// "before every transformation chain": the empty chain too (an input without
+			// transformations, a pipeline without common passes) hands back a copy
+			in := ast.Schemas(contexts[i].Schemas)
+			out, err := compiler.Passes{}.Process(in)
+			if err == nil {
+				events++
+				type chainIO struct{ Schemas ast.Schemas }
+				for _, f := range judgeCopy(ctx, "compiler.Passes{}.Process", reflect.ValueOf(&chainIO{in}).Elem(), reflect.ValueOf(&chainIO{out}).Elem()) {
+					if _, dup := findings[f.Key]; !dup {
+						findings[f.Key] = f
+					}
+				}
+			}
 		}
 		return nil
 	})
